@@ -337,6 +337,9 @@ package table
 //@ func (*ROATable).Validate
 //@   requires rt != nil && path != nil
 //@   claims post at-call at-return
+// from C16 "origin-AS rules": where the route has no origin AS of its own (empty path, confederation-only path) the
+// origin is this speaker's AS on the session the route came in on - the local AS, not the AS of the peer
+//@   at-call path.GetAsPath() requires ownAs == path.OriginInfo().source.LocalAS
 //@   at-call tree.WalkMatch( requires (asPath == nil || len(asPath.Value) == 0) ==> as == ownAs
 //@   at-call tree.WalkMatch( requires asPath != nil && len(asPath.Value) > 0 && (asPath.Value[len(asPath.Value)-1].GetType() == bgp.BGP_ASPATH_ATTR_TYPE_CONFED_SEQ || asPath.Value[len(asPath.Value)-1].GetType() == bgp.BGP_ASPATH_ATTR_TYPE_CONFED_SET) ==> as == ownAs
 //@   at-call tree.WalkMatch( requires asPath != nil && len(asPath.Value) > 0 ==> asPath.Value[len(asPath.Value)-1].GetType() != bgp.BGP_ASPATH_ATTR_TYPE_SET
@@ -362,7 +365,8 @@ package table
 //@ props C10
 //@ func RegexpRemoveExtCommunities
 //@   requires path != nil
-//@   claims step
+//@   claims step at-call
+//@   at-call path.SetExtCommunities(newComms, true) requires fresh(newComms) || len(newComms) == 0
 //@   loop 0 step !match ==> len(newComms) == header(len(newComms)) + 1 && newComms[len(newComms)-1] == comm
 //@   loop 0 step match ==> len(newComms) == header(len(newComms))
 //@ func RegexpRemoveCommunities
@@ -375,7 +379,10 @@ package table
 //@   at-call path.SetCommunities(newComms, true) requires fresh(newComms) || len(newComms) == 0
 //@ func RegexpRemoveLargeCommunities
 //@   requires path != nil
-//@   claims step
+//@   claims step at-call
+// ... built in memory of this call, not in the stored attribute's backing array (filtering in place shifts the survivors
+// into the list the stored route and every other peer's copy read)
+//@   at-call path.SetLargeCommunities(newComms, true) requires fresh(newComms) || len(newComms) == 0
 //@   loop 0 step !match ==> len(newComms) == header(len(newComms)) + 1 && newComms[len(newComms)-1] == comm
 //@   loop 0 step match ==> len(newComms) == header(len(newComms))
 
@@ -865,3 +872,4 @@ package table
 //@ func (*RoutingPolicy).statementInUse
 //@   claims frame
 //@   modifies nothing
+
